@@ -34,17 +34,19 @@ func cellOf(i int, seed int64, cells int) int {
 func TestProp(t *testing.T) {
 	env := vh.GetEnv()
 	rep := vh.NewReport("C08", "exploration")
-	rep.Rule("four streams against the full NewAuthenticatorMux (Okta provider, scripted TLS IdP that answers positively for every token a case uses): " +
+	rep.Rule("five streams against the full NewAuthenticatorMux (Okta provider, scripted TLS IdP that answers positively for every token a case uses): " +
 		"c08-cred strides over id-placement(10) x secret-placement(11) x method-slot(12: half the endpoint's own method) x endpoint(4), payload valid 3/4 of the time; " +
 		"c08-code strides over code-class slots(21) x sub-variant(8) x credential placement(4) on POST /redeem with right credentials; " +
 		"c08-path strides over path/Host variant(33) x endpoint(4) x credential mode(5) with raw request targets. " +
 		"c08-seq (history) strides over endpoint(4) x scenario(5 slots: same-endpoint x2, other-endpoints, interleaved-two-subjects, unauthorised-first) x pause(11 slots: 0 / 50 ms / 1.1 s): per case a sequential conversation on one stack about SHARED subject values (token, refresh token, code, e-mail+groups): an authorised call that succeeds, then the same subject with missing / partial / wrong / swapped credentials on the same endpoint and on the other endpoints its tokens fit, or interleaved with a never-authorised second subject; IdP calls are counted per step. " +
+		"c08-piece strides over endpoint(4) x which-credential-is-wrong(2) x derivation slot(12) x first/last/random piece(3) x placement(2): one credential exact, the other DERIVED FROM PARTS of the configured value, own method, valid payload, 4/5 of the cases on the stacks whose configured id/secret contain separators, padding, quoting. " +
 		"Concrete tokens, e-mails, near-miss values and mutation positions are random per case. distinct = the abstract dimension tuple, counted only when the server answered")
 	rep.Assume("the fake IdP answers exactly as scripted and logs every call it receives; calls are attributed to cases by per-case unique token keys")
 	rep.Assume("a value is 'presented' when it is in the request as client_id (query or form) / client_secret (form, query) / X-Client-Secret header; the same value under any other name is not")
+	rep.Assume("only the EXACT configured client id and the EXACT configured secret authorise: stacks 2.. are configured with ids/secrets containing list separators, padding, quoting, JSON-ish and long values, and wrong presentations include every piece of the configured value (split on each separator, trimmed, unquoted, stripped, re-ordered); a header presents what HTTP delivers (surrounding blanks stripped)")
 	rep.Assume("re-encodings that spell the same bytes as a genuine code (std alphabet, '=' padding, CR/LF, non-canonical tail) are C02's subject and don't-care here; deadlines within 30 s of now are don't-care")
 
-	nStacks := env.Pick(4, 8)
+	nStacks := env.Pick(8, 14)
 	var stacks []*stack
 	defer func() {
 		for _, s := range stacks {
@@ -60,9 +62,12 @@ func TestProp(t *testing.T) {
 		}
 		stacks = append(stacks, s)
 	}
+	var shapes []string
 	for si, s := range stacks {
 		s.other = stacks[(si+1)%len(stacks)].as
+		shapes = append(shapes, s.shape)
 	}
+	rep.Extra("stack_credential_shapes", shapes)
 
 	start := time.Now()
 	if only, skip := env.Only("c08-cred"); !skip {
@@ -76,6 +81,9 @@ func TestProp(t *testing.T) {
 	}
 	if only, skip := env.Only("c08-seq"); !skip {
 		runSeq(rep, env, stacks, env.Pick(440, 6600), only)
+	}
+	if only, skip := env.Only("c08-piece"); !skip {
+		runPiece(rep, env, stacks, env.Pick(1728, 17280), only)
 	}
 	rep.Extra("wall_workload_s", time.Since(start).Seconds())
 
@@ -99,7 +107,12 @@ func TestProp(t *testing.T) {
 		"path_plain_ok_2xx": 1, "path_variant_refused_without_credentials": 20,
 		"seq_unauthorised_after_authorised_pause_50ms": 10, "seq_unauthorised_after_authorised_pause_1100ms": 3,
 	}
+	floors["piece_of_configured_id_refused_on_separator_stack"] = 100
+	floors["piece_of_configured_secret_refused_on_separator_stack"] = 100
 	for _, e := range endpoints {
+		floors["piece_of_configured_id_refused_"+e.name] = 20
+		floors["piece_of_configured_secret_refused_"+e.name] = 20
+		floors["ok_2xx_"+e.name+"_on_separator_stack"] = 3
 		floors["seq_authorised_step_2xx_"+e.name] = 10
 		floors["seq_unauthorised_after_authorised_same_subject_"+e.name] = 20
 		floors["seq_unauthorised_after_authorised_other_subject_"+e.name] = 3
@@ -202,6 +215,7 @@ func runCred(rep *vh.Report, env vh.Env, stacks []*stack, n, only int) {
 		w := &wire{method: method, path: as.Path(ep.name), host: as.Host}
 		ids, idSub := genID(r, idC, as.ClientID, as.IdPClientID)
 		secrets, secSub := genSecret(r, secC, as.ClientSecret, as.IdPSecret, as.ClientID)
+		secrets = normalise(secrets, "form")
 		putCreds := func() {
 			for _, p := range ids {
 				w.putID(p)
@@ -238,7 +252,7 @@ func runCred(rep *vh.Report, env vh.Env, stacks []*stack, n, only int) {
 			kc.Err = o.rs.Err.Error()
 			rep.Count("client_errors", 1)
 		}
-		judgeGate(rep, "c08-cred", i, ep.name, idOK, secOK, o, "", kc)
+		judgeGate(rep, "c08-cred", i, ep.name, idOK, secOK, o, pieceSuffix(ids, secrets, idOK, secOK, as.ClientID, as.ClientSecret), kc)
 		if o.rs.Status == 0 {
 			return
 		}
@@ -251,6 +265,9 @@ func runCred(rep *vh.Report, env vh.Env, stacks []*stack, n, only int) {
 			rep.Count("requests_with_credentials", 1)
 			if is2xx(o.rs) {
 				rep.Count("ok_2xx_"+ep.name, 1)
+				if st.exotic {
+					rep.Count("ok_2xx_"+ep.name+"_on_separator_stack", 1)
+				}
 			}
 			if o.idpCalls > 0 {
 				rep.Count("idp_calls_"+ep.name, o.idpCalls)
@@ -525,7 +542,7 @@ func runCode(rep *vh.Report, env vh.Env, stacks []*stack, n, only int) {
 			return
 		}
 
-		idPlace, secPlace := []string{"form", "query"}[cp&1], []string{"form", "header"}[cp>>1]
+		idPlace, secPlace := []string{"form", "query"}[cp&1], st.secPlace([]string{"form", "header"}[cp>>1], "POST")
 		w := &wire{method: "POST", path: as.Path("redeem"), host: as.Host, hasBody: true}
 		w.putID(placed{idPlace, as.ClientID})
 		put := func() {
@@ -693,14 +710,15 @@ func runPath(rep *vh.Report, env vh.Env, stacks []*stack, n, only int) {
 		case "id-only":
 			ids = []placed{{"query", as.ClientID}}
 		case "secret-only":
-			secrets = []placed{{"header", as.ClientSecret}}
+			secrets = []placed{{st.secPlace("header", ep.method), as.ClientSecret}}
 		case "near-miss-both":
 			a, _ := nearMiss(r, as.ClientID, false)
 			b, _ := nearMiss(r, as.ClientSecret, true)
 			ids, secrets = []placed{{"query", a}}, []placed{{"header", b}}
 		case "right":
-			ids, secrets = []placed{{"query", as.ClientID}}, []placed{{"header", as.ClientSecret}}
+			ids, secrets = []placed{{"query", as.ClientID}}, []placed{{st.secPlace("header", ep.method), as.ClientSecret}}
 		}
+		secrets = normalise(secrets, "query")
 		for _, p := range ids {
 			w.putID(p)
 		}
@@ -733,7 +751,7 @@ func runPath(rep *vh.Report, env vh.Env, stacks []*stack, n, only int) {
 		if kind != "plain" && kind != "absolute-form" { // absolute-form names the same resource (RFC 7230 5.3.2)
 			via = " via " + kind
 		}
-		judgeGate(rep, "c08-path", i, e, idOK, secOK, o, via, kc)
+		judgeGate(rep, "c08-path", i, e, idOK, secOK, o, via+pieceSuffix(ids, secrets, idOK, secOK, as.ClientID, as.ClientSecret), kc)
 		if foreign && authorised && o.effects() != "" {
 			rep.Violate("c08-path", i, "foreign Host served by a token endpoint",
 				str("/%s acted (%s) for a request whose effective host (%s) is not the authenticator's configured host", e, o.effects(), kind), kc)
